@@ -51,8 +51,8 @@ End WithHmac.
 (** ---- input helpers ---- *)
 Theorem parse_decimal_be8_total s : parse_decimal_be8 s <> Panic.
 Proof. unfold parse_decimal_be8. destruct (parse_uint64 s); discriminate. Qed.
-Theorem left_pad_hex_total s n : (0 <= n)%Z -> left_pad_hex s n <> Panic.
-Proof. intros H. unfold left_pad_hex. destruct (n <=? zlen s)%Z; [|discriminate]. destruct (Z.ltb_spec n 0); [lia|discriminate]. Qed.
+Theorem left_pad_hex_total s n : left_pad_hex s n <> Panic.
+Proof. unfold left_pad_hex. destruct (n <=? 0)%Z; [discriminate|]. destruct (n <=? zlen s)%Z; discriminate. Qed.
 Theorem parse_hex_timestamp_total ts : parse_hex_timestamp ts <> Panic.
 Proof. unfold parse_hex_timestamp. destruct (hex_decode _); discriminate. Qed.
 Theorem parse_decimal_challenge_total s : parse_decimal_challenge s <> Panic.
